@@ -33,3 +33,7 @@ def run(ctx):
     lib_module.parsed_used(ctx, P, only=ms)
     lib_module.format_types(ctx, P, only=ms)
     lib_mem.c_lints(ctx, ctx.program(), scopes.lib_scope("C11"))
+    from . import lib_kind5
+    lib_kind5.sort_bookmark(ctx, ctx.program())
+    lib_kind5.py_nan_coord(ctx, py)
+    lib_kind5.validate_before_clear(ctx, ctx.program())
